@@ -73,10 +73,24 @@ def main():
             opn = "basis-inverse-queries"
         else:
             opn = c["ops"][nobs][0] + (c["ops"][nobs][2] if c["ops"][nobs][0] == "CHG" else "") if nobs < len(c["ops"]) else "end"
+        note = ""
+        if c["kind"] == "R" and not opn.startswith("SL") and nobs <= len(c["ops"]):
+            # glibc reports heap corruption at the next free, which may be several operations after the write.  Attribute
+            # the crash to the hyper-sparse left solve (known defect: its index arrays overflow on exact cancellation) only
+            # if the same history runs to the end without the hyper-sparse left solves, in a process of its own.
+            sparse = [o[0] for o in c["ops"][:nobs] if o[0] in ("SLS", "SL2", "SL3")]
+            if sparse:
+                c2 = dict(c)
+                c2["ops"] = [(["SL"] + o[1:2]) if o[0] == "SLS" else o for o in c["ops"] if o[0] not in ("SL2", "SL3")]
+                rc2_, out2_, err2_ = lu.run_harness(exe, lu.case_text("x", c2), "C11x")
+                if rc2_ == 0:
+                    note = (" - heap corruption written by the earlier hyper-sparse left solve %s and detected at %s: the same history "
+                            "with dense left solves runs to the end" % (sparse[-1], opn))
+                    opn = sparse[-1]
         sig = "crash:%s:%s" % (c["kind"], opn)
         if c.get("probe"):
             sig = c["probe"] + ":" + sig
-        ck.violation(sig, "the implementation crashed or did not terminate (rc=%d; 124 = timeout) in case %d (%s) after %d observations, in operation %s" % (rc, last, c["family"], nobs, opn),
+        ck.violation(sig, "the implementation crashed or did not terminate (rc=%d; 124 = timeout) in case %d (%s) after %d observations, in operation %s%s" % (rc, last, c["family"], nobs, opn, note),
                      {"kind": "crash", "case": c, "stderr": err})
     Q = lu.Queries()
     pending = []
